@@ -3,4 +3,4 @@ From LV Require Import Lib.Bytes Lib.Prelude Model.C03 Model.C14.
 Extraction Language OCaml.
 Extraction "c14_model.ml"
   prelude_byte_of_N prelude_N_of_byte prelude_Z_of_N prelude_Z_opp prelude_nat_of_N prelude_N_of_nat
-  run step init c03_choose held_ids wallet_ids reserved_ids finished create.
+  run step init c03_choose held_ids wallet_ids reserved_ids finished create create_signed.
